@@ -7,6 +7,7 @@ import Ink.Audit
 import Driver.Play
 import Driver.Expr
 import Ink.Explore
+import Ink.RefCheck
 
 open Ink
 
@@ -72,11 +73,25 @@ def exploreCmd (path : String) (depth : Nat) (shuffle : Bool) (names : List Stri
   for l in log do out.putStrLn l.render
   out.putStrLn (Json.obj [("complete", .bool complete)]).render
 
+def refcheckCmd (path : String) : IO Unit := do
+  let cs ← readFileChars path
+  let out ← IO.getStdout
+  let fuel := 2 * cs.length + 16
+  match Load.loadStory fuel (Json.parse cs) with
+  | .ok ld =>
+    let bad := RefCheck.badRefs ld.root fuel
+    out.putStrLn (Json.obj [("t", .str "refcheck"), ("ok", .bool (RefCheck.storyOk ld.root fuel)),
+      ("wf", .bool (wfTreeB fuel ld.root)),
+      ("bad", .arr (bad.map (fun b => .arr [Audit.addrJson b.1, .str b.2.1, .str b.2.2])))]).render
+  | .err k m => out.putStrLn (Json.obj [("t", .str "loaderr"), ("k", .str k), ("m", .str m)]).render
+  | .panic s => out.putStrLn (Json.obj [("t", .str "panic"), ("site", .str s)]).render
+
 def main (args : List String) : IO UInt32 := do
   match args with
   | ["play", script] => playCmd script; pure 0
   | ["audit", path] => auditCmd path; pure 0
   | ["expr", path] => exprCmd path; pure 0
+  | ["refcheck", path] => refcheckCmd path; pure 0
   | "explore" :: path :: depth :: shuffle :: names => exploreCmd path depth.toNat! (shuffle == "shuffle") names; pure 0
   | ["pathprobe"] => pathProbeLoop (← IO.getStdin) (← IO.getStdout); pure 0
   | _ => IO.eprintln "usage: inkmodel audit <story.json> | pathprobe"; pure 2
